@@ -30,6 +30,8 @@ def classify_restart(c, ob, k):
     elif o['k'] in ('unlink', 'rmdir') and b['ret'] == '0' and under and a0 is not None and a0[0] in ('f', 'l', 'd') and a1 is None \
             and lowers_have(c, p):
         sig = {'class': 'rm-upper-only-entry-leaves-lower-visible'}
+    elif o['k'] in ('setxattr', 'removexattr') and b['ret'] == '0' and o.get('name') in oc.OPQ and a1 is not None and a1[0] == 'd':
+        sig = {'class': 'client-sets-opaque-marker'}
     what = ('after %s %s (errno %s) a freshly started overlay over the same directories shows a different tree: %s'
             % (o['k'], p, b['ret'], ', '.join('%s:%s' % (q or '/', kd) for q, kd in d[:6])))
     return {'what': what, 'sig': sig, 'input': oc.replay_input(c, k), 'live_view': b.get('view'), 'restarted_view': b.get('restart'),
